@@ -157,14 +157,18 @@ def unit_hex_bounded(maxlen, part, parts):
                 continue
             n += 1
             text = bytes(t)
-            got, err = [], None
-            try:
-                for b in H.parse_hex_string(iter(text)):
-                    got.append(b)
-            except Exception as e:  # noqa
-                err = type(e).__name__
-            if (got, err) != hex_text_spec(text):
-                dis.append({"input": {"text": text.hex()}, "detail": f"hex text {text!r}: bytes {got} then {err}, expected {hex_text_spec(text)}", "site": "hex/marshal.py:parse_hex_string"})
+            want = hex_text_spec(text)
+            # the same text from every kind of byte source (C10: the result must not depend on how the bytes are supplied)
+            for kind, src in (("iterator", iter(text)), ("bytes", text), ("bytearray", bytearray(text)), ("list", list(text))):
+                got, err = [], None
+                try:
+                    for b in H.parse_hex_string(src):
+                        got.append(b)
+                except Exception as e:  # noqa
+                    err = type(e).__name__
+                if (got, err) != want:
+                    dis.append({"input": {"text": text.hex(), "source": kind}, "detail": f"hex text {text!r} supplied as {kind}: bytes {got} then {err}, expected {want}", "site": "hex/marshal.py:parse_hex_string"})
+                    break
     u.bounded.append({"name": f"hex-texts/len<={maxlen}/part{part}", "bound": f"all texts of at most {maxlen} characters over 0 9 a F space newline g + 0xa0", "evaluations": n, "disagreements": dis[:8], "all_disagreements": len(dis)})
     u.obligations.append({"name": f"{u.name}/ran", "kind": "bounded-bookkeeping", "site": "", "status": "proved", "backend": "bookkeeping", "seconds": 0, "model": None, "detail": f"{n} texts"})
     return u
